@@ -106,3 +106,11 @@ class EscapeHooks:
 
     def on_call_value(self, ex, st, f, args, kwargs, node):
         return self._outcomes(ex, st, f.path or 'value', node, list(args) + list(kwargs.values()))
+
+
+def is_lock(key: str, name: str) -> bool:
+    """`with <key>:` enters the lock member `name` of an object: the access path of the context manager must be an
+    attribute path ending in that member (self.mdib_lock, self._mdib.mdib_lock, mdib.mdib_lock; a local alias of such a
+    value keeps its path). A bare local variable that merely carries the name (e.g. `mdib_lock = nullcontext()`) is not
+    the lock."""
+    return key.endswith('.' + name)
